@@ -359,6 +359,7 @@ func (p *termProfile) op() {
 					}
 				}
 			}
+			first := false
 			st.Mutate(gvkNode, keyOf(o), func(o client.Object) {
 				n := o.(*corev1.Node)
 				if bad {
@@ -370,12 +371,39 @@ func (p *termProfile) op() {
 					}
 					if !have {
 						n.Status.Conditions = append(n.Status.Conditions, corev1.NodeCondition{Type: ctype, Status: corev1.ConditionTrue, LastTransitionTime: st.now()})
+						first = true
 					}
 				} else {
 					setNodeReady(n, false, st.now())
 				}
 			})
 			p.note("node %s unhealthy (bad=%v)", o.GetName(), bad)
+			// trouble often escalates: the other condition follows shortly before the first one's toleration runs out
+			if first && len(p.e.CP.Repair) > 1 && ch.Pick("term.escalate", 2) == 1 {
+				var mine, other cloudprovider.RepairPolicy
+				for _, pol := range p.e.CP.Repair {
+					if pol.ConditionType == ctype {
+						mine = pol
+					} else {
+						other = pol
+					}
+				}
+				if d := mine.TolerationDuration - other.TolerationDuration/2; d > 0 && other.ConditionType != "" {
+					name, otype := o.GetName(), other.ConditionType
+					p.s.AddTimer(actorUser, d, "second unhealthy condition on "+name, false, func() {
+						st.Mutate(gvkNode, types.NamespacedName{Name: name}, func(o client.Object) {
+							n := o.(*corev1.Node)
+							for _, c := range n.Status.Conditions {
+								if c.Type == otype {
+									return
+								}
+							}
+							n.Status.Conditions = append(n.Status.Conditions, corev1.NodeCondition{Type: otype, Status: corev1.ConditionTrue, LastTransitionTime: st.now()})
+						})
+						p.note("node %s also reports %s", name, otype)
+					})
+				}
+			}
 		}
 	case 10: // instance vanishes
 		live := p.e.CP.LiveInstances()
